@@ -1,5 +1,6 @@
 import FrappyDrive.C01
 import FrappyDrive.C14
+import FrappyDrive.C15
 import FrappyDrive.C19
 import FrappyDrive.C20
 import FrappyDrive.DTypes
